@@ -36,3 +36,13 @@ pub fn all() -> Vec<&'static PropDef> {
 pub fn by_id(id: &str) -> Option<&'static PropDef> {
     all().into_iter().find(|d| d.id == id)
 }
+
+/// The in-process check used by the fuzz target (C15's registered check
+/// spawns child processes; the target runs its body directly under ASan).
+pub fn fuzz_check(def: &'static PropDef) -> crate::runner::CheckFn {
+    if def.id == "C15" {
+        packed::c15_fuzz_check
+    } else {
+        def.check
+    }
+}
